@@ -7,21 +7,30 @@ def run(tier, seed):
     res = PropertyResult('C08', 'other', 'see coverage.explanation parts')
     targets = []
     try:
-        from contracts import heap_c
+        from contracts import heap_c, alloc_c
         from pyvc.verify import verify
-        res.report = verify(heap_c.targets(), timeout_s=30 if tier == 'quick' else 120)
+        res.report = verify(heap_c.targets() + alloc_c.targets(), timeout_s=30 if tier == 'quick' else 120)
     except ImportError:
         res.report = None
     res.explanation = ('Tier P (unbounded, all alloc/free histories): sim.Heap.alloc and Heap.free are executed symbolically from their current source text on a '
                        'symbolic heap state satisfying the representation invariant HeapInv (chunks tile [0,current_size), free list strictly sorted, coalesced, '
                        'tail-trimmed, max_size >= current_size) and proved to re-establish it and to satisfy the abstract-view postconditions (result live, of the '
-                       'requested size, disjoint from every previously live chunk, other live chunks untouched, max_size = max(old, current_size)); since HeapInv holds for '
-                       'the empty heap this covers every history by induction. Tier B (bounded): the same invariant on the real class over all histories up to a '
+                       'requested size, disjoint from every previously live chunk, other live chunks untouched, max_size = max(old, current_size)); Heap.__init__ is proved to establish HeapInv with an '
+                       'empty live view, so this covers every history by induction. The allocation phase of SimOps.__init__ (statements from `self.c_locs = np.full(..)` to '
+                       '`self.c_len = h.max_size`: special slots, interface pins, level-wise allocation with deferred release, stem and output-slot aliasing) is executed symbolically on a '
+                       'symbolic op table / level partition / interface against the *contract* of Heap (modular) with ghost reference counting CNT(x,k) and ghost FREED: operands are '
+                       'allocated and not freed when read, distinct live slots have disjoint regions, a slot is freed only when not pinned and its references are exhausted, pinned slots '
+                       '(special, interface inputs, captured lines) are never freed, every region lies inside [0,c_len), stripped branches and output slots alias exactly, every '
+                       'Heap.free gets a live chunk (no double free), every Heap.alloc a positive size -- under the requires established by the translation phase (checked on real '
+                       'instances by map_drv.check_phase_requires) and the levelisation phase (proved in simops_c incl. ref_count = CNT). Tier B (bounded): the same invariant on the real class over all histories up to a '
                        'stated length, and MapValid (no live overlap by token simulation, aliases, capacities, c_len) on real SimOps instances.')
     res.bounded = [heap_drv.part(tier), simops_drv.part(tier, seed, which=('map',))]
     res.assumptions = ['bisect.bisect / bisect.insort_left by their defining axioms on sorted sequences (assumed library contracts); dict/list as finite map / sequence',
                        'integers mathematical (int32 overflow of locations not modelled)',
-                       'the memory map built by SimOps.__init__ (allocation phase) is covered by the bounded part only',
+                       'translation phase of SimOps.__init__ (ops, stems) is bounded only: its guarantees (TopoOps, single production, sources pre-allocated, stems point to real stems) are the '
+                       'requires of the allocation-phase contract, evaluated on real SimOps instances (REQ:* clauses)',
+                       'Heap is used by contract at the call sites of the allocation phase (AbsInv = the live-chunk part of HeapInv)',
+                       'CNT monotone in k: induction lemma proved as base+step obligations; the quantified statement is then assumed',
                        '"HeapInv implies the chunks tile the range" is part of HeapInv itself (successor-closure + non-overlap + 0 in dom)']
     res.trusted_base = ['pyvc', 'z3 5.1.0', 'bounded/map_drv.py token simulation', 'bounded/heap_drv.py']
     return res
